@@ -229,6 +229,22 @@ pub fn run_identctx(_tier: &str, _seed: u64, out: &mut Out) {
     }
 }
 
+/// resolved script paths as constants: a template in a sub-directory refers to external modules by relative / absolute
+/// paths with and without suffix; the path the runtime receives in l-value paths is the resolved one
+pub fn run_pathctx(_tier: &str, _seed: u64, out: &mut Out) {
+    let src = "<wxs module=\"m\" src=\"../../utils/fmt.wxs\"/><wxs module=\"n\" src=\"./local\"/><wxs module=\"k\" src=\"/pages/./list/../k.wxs\"/><v bind:tap=\"{{ m.f }}\" change:p=\"{{ n.g }}\" catch:x=\"{{ k.o.h }}\"/>";
+    let mut g = TmplGroup::new();
+    g.add_script("utils/fmt", "exports.f = function utils_fmt_f(){}");
+    g.add_script("pages/list/local", "exports.g = function local_g(){}");
+    g.add_script("pages/k", "exports.o = {h: function k_o_h(){}}");
+    let diags = { crate::util::note_input(src); g.add_tmpl("pages/list/index", src) };
+    let max_level = diags.iter().map(|d| d.kind.level() as u8).max().unwrap_or(0);
+    let bundle = g.get_tmpl_gen_object_groups().unwrap_or_default();
+    let job = serde_json::json!({"kind": "pathctx", "id": 0, "src": src, "max_level": max_level, "bundle": bundle, "path": "pages/list/index",
+                                 "expect": {"tap": [1, "utils/fmt", "f"], "p": [1, "pages/list/local", "g"], "x": [1, "pages/k", "o", "h"]}});
+    out.raw(&job.to_string());
+}
+
 /// named character references: names on stdin (one per line, without & and ;), output name \t decoded
 /// code points (hook level) and, per batch of 40, the text nodes the runtime-visible parse produces
 pub fn run_entnames(out: &mut Out) {
